@@ -1,6 +1,6 @@
 #!/bin/bash
 # dev helper: compose + verify a unit, print rendered errors
-cd /verif/tools && python3 -m sosv compose /verif/units/$1.vrs /verif/build/$1/$1.rs || exit 2
+cd /verif/tools && python3 -m sosv compose /verif/units/$1.vrs /verif/build/$1/$1.rs || { echo "error: COMPOSE FAILED"; exit 2; }
 cd /verif/build/$1 && verus $1.rs --error-format=json --multiple-errors 20 --rlimit 40 ${@:2} 2>&1 >/dev/null | python3 -c "
 import sys,json
 for l in sys.stdin:
